@@ -92,17 +92,37 @@ NA = {
 def main():
     here = os.path.dirname(os.path.abspath(__file__))
     props = [json.loads(l)["id"] for l in open(os.path.join(here, "properties.jsonl"))]
+    KANI = {"C05": "check_excess_parentheses (thorough tier)", "C07": "Shape / Indent arithmetic", "C11": "create_function_*_trivia and should_omit_*_parens", "C15": "load_overrides",
+            "C20": "load_overrides"}
+    ROUND5 = {
+        "C01": "; O8 format_interpolated_string pads a formatted table constructor; O9 no output alternative of the C05 composer prints `:: T <` (ill-formedness only)",
+        "C02": "; a child slot never set on a node rebuilt with T::new is a dropped child; semantic battery also under ranges",
+        "C03": "; Replace obligation also over closures (expression results, trailing side)",
+        "C04": "; bracket-string adjacency (C01's O3 kernel) decides this property as well",
+        "C06": "; collapse-guard kernel (C03's H) and require-grouping kernel (C12's G) with two-pass replays",
+        "C08": "; format_code returns the printed AST untouched; sort_requires' ignore guard and region tracking (C12's kernels) decide this property as well",
+        "C09": "; format_code returns the printed AST untouched; sort_requires' range guard (C12's kernel)",
+        "C10": "; format_token builds no white space from a literal",
+        "C11": "; quote wiring: every quoted literal's quote type is the result of get_quote_to_use on every path of format_token",
+        "C14": "; cause of every exit edge of the walker loop",
+        "C17": "; the stdin text reaches format_string untouched; the pass-through flag has no other source than path_is_stylua_ignored",
+        "C19": "; one file per pool job (C14's sender kernel) with a thread-count sweep replay",
+    }
     checks = []
     for pid in props:
         if pid in CLAIMED:
             tech, text, note, ref = CLAIMED[pid]
+            tech = tech + ROUND5.get(pid, "")
+            if pid in KANI:
+                tech += f"; second engine: Kani 0.68 / CBMC harness over the compiled {KANI[pid]} (kani/*.rs, injected into a scratch copy; counterexamples are replayed natively by concrete playback)"
+            tech += "; when a kernel stays undecided the property's whole replay battery is run and only a reproduced violation is reported"
             checks.append({
                 "property_id": pid,
                 "quick_cmd": f"bin/vcheck {pid} --tier quick",
                 "thorough_cmd": f"bin/vcheck {pid} --tier thorough",
                 "evidence_file": f"evidence/{pid}.json",
                 "replay_cmd_template": f"bin/vcheck {pid} --replay {{path}}",
-                "engine": "mirsym+z3",
+                "engine": "mirsym+z3" + ("+kani" if pid in KANI else ""),
                 "level_claimed": {"category": "model_checking", "text": text, "design_ref": "DESIGN.md section " + ref},
                 "level_note": note,
                 "technique": tech,
@@ -128,6 +148,10 @@ def main():
         "engines": [
             {"name": "mirsym", "path": "vcheck/mirsym.py", "serves_properties": sorted(CLAIMED),
              "kind_free_text": "symbolic executor over rustc -Zunpretty=mir text of the current /repo working tree, z3 back end (cvc5 cross-check in thorough tier)"},
+            {"name": "kani", "path": "vcheck/kanix.py", "serves_properties": sorted(KANI),
+             "kind_free_text": "Kani 0.68 / CBMC 6.11 #[kani::proof] harnesses (kani/*.rs) over kani::any() inputs, appended under #[cfg(kani)] to a scratch copy of the working tree; "
+                               "SUCCESSFUL = obligation discharged, FAILED = concrete playback against the native build before anything is reported; a harness that no longer compiles is "
+                               "recorded as not decided"},
         ],
         "checks": checks,
         "not_applicable": na,
